@@ -8,6 +8,8 @@ category names, timeouts, destinations (result names of routers are not in the s
 -/
 import Rpft.Props.C02
 import Rpft.Props.C17
+import Rpft.Lemmas.ActionCodec
+import Rpft.Gen.Tables
 set_option linter.unusedSimpArgs false
 set_option linter.unusedVariables false
 namespace Rpft.Props.C04
@@ -46,5 +48,279 @@ per flow it is decided by `roundtrip_equiv_of_cert` on the real files. -/
 def C04_full (Expressible : Flow.Flow → Prop) (roundtrip : Flow.Flow → Option Flow.Flow) : Prop :=
   ∀ f g, Expressible f → roundtrip f = some g →
     ∀ env n, trace c04Lvl f env n = trace c04Lvl g env n
+
+/-! ### the action codec: "same actions with the same content"
+
+`Rpft/ActionCodec.lean` models how ONE action becomes the fields of a sheet row
+(`Action.get_row_model_fields` + `FlowRowModel(**fields)`) and how a row becomes the node's
+actions again (`_get_row_action` / `_get_row_node`), tied to the real code by the differential
+stream of the C04 check.  The cell layer between the two (row model → cells → row model) is
+C07's subject. -/
+
+section ActionCodec
+open Rpft.ActionCodec
+
+/-- T1: the constants of the codec are the ones in the source (action type ↔ row type tables of
+both directions, keys written per action class, attachment kinds and the cut, contact
+properties, default scheme, limits, HTTP methods). -/
+theorem tables_agree_actcodec :
+    Gen.acExportRowType = exportRowType ∧ Gen.acPassThrough = passThroughTypes ∧
+    Gen.acExportKeys = exportKeys ∧
+    Gen.acParseDispatch = parseDispatch ∧ Gen.acParsePrefix = setContactPrefix ∧
+    Gen.acParsePrefixCtor = setContactPrefix ++ "{}".toList ∧
+    Gen.acParseReplaceNeedles = [setContactPrefix] ∧
+    Gen.acNoActionRowTypes = noActionRowTypes ∧ Gen.acNodeDispatch = nodeDispatch ∧
+    Gen.acMediaKindsExport = mediaKinds ∧ Gen.acMediaKindsParse = mediaKinds ∧
+    Gen.acMediaCut = mediaCut ∧ (∀ t ∈ mediaKinds, (t ++ [':']).length = mediaCut) ∧
+    Gen.acContactPropsLoad = contactProps ∧ Gen.acContactPropsParse = contactProps ∧
+    Gen.acDefaultSchemeExport = defaultScheme ∧ Gen.acDefaultSchemeParse = defaultScheme ∧
+    Gen.cliMaxFieldValueLen = maxFieldValue ∧ Gen.cliMaxRunResultLen = maxResultValue ∧
+    Gen.cliMaxFieldKeyLen = Campaign.maxKeyLen ∧ Gen.cliEmptyTextChecked = true ∧
+    Gen.cliHttpMethods = httpMethods ∧ Gen.cliDefaultHttpMethod = defaultMethod := by
+  decide
+
+/-- the enumeration `ContactProp` is the source's property list -/
+theorem contactProps_enum :
+    contactProps = [ContactProp.channel, .language, .name, .status, .timezone].map ContactProp.str ∧
+    ∀ p : ContactProp, ContactProp.ofStr p.str = some p := by
+  refine ⟨by decide, fun p => by cases p <;> decide⟩
+
+/-- the row type an exported action carries is the one `exportRowType` lists for its type -/
+theorem toFields_type (a : Act) (r : RowFields) (h : toFields a = .ok r) :
+    (a.typeStr, r.type) ∈ exportRowType := by
+  cases a with
+  | sendMsg => simp only [toFields, Except.ok.injEq] at h; subst h; dsimp only [Act.typeStr]; decide
+  | setContactField name key ft value =>
+    simp only [toFields] at h
+    split at h
+    · cases h
+    · simp only [Except.ok.injEq] at h; subst h; dsimp only [Act.typeStr]; decide
+  | setContactProp p v =>
+    simp only [toFields, Except.ok.injEq] at h; subst h; cases p <;> (dsimp only [Act.typeStr]; decide)
+  | setContactChannel => cases h
+  | addGroups gs =>
+    cases gs with
+    | nil => cases h
+    | cons g gs => simp only [toFields, groupFields, Except.ok.injEq] at h; subst h; dsimp only [Act.typeStr]; decide
+  | removeGroups gs all =>
+    cases gs with
+    | nil => cases h
+    | cons g gs => simp only [toFields, groupFields, Except.ok.injEq] at h; subst h; dsimp only [Act.typeStr]; decide
+  | setRunResult => simp only [toFields, Except.ok.injEq] at h; subst h; dsimp only [Act.typeStr]; decide
+  | enterFlow => simp only [toFields, Except.ok.injEq] at h; subst h; dsimp only [Act.typeStr]; decide
+  | callWebhook => simp only [toFields, Except.ok.injEq] at h; subst h; dsimp only [Act.typeStr]; decide
+  | transferAirtime => simp only [toFields, Except.ok.injEq] at h; subst h; dsimp only [Act.typeStr]; decide
+  | addContactUrn => simp only [toFields, Except.ok.injEq] at h; subst h; dsimp only [Act.typeStr]; decide
+  | unsupported => cases h
+
+/-- **Action round trip.**  For EVERY action the sheet format can express (unbounded texts,
+lists, header / amount dictionaries), exporting it to row fields and compiling those fields
+again yields exactly one action, equal to the original in all content (everything `render()`
+shows except the invented action / templating-instance uuid; group, sub-flow and template
+uuids included). -/
+theorem action_roundtrip (a : Act) (h : Expressible a) :
+    ∃ r, toFields a = .ok r ∧ ofFields r = .ok [a] := by
+  have hrt := roundTrip_of_expressible a h
+  unfold roundTrip at hrt
+  cases ht : toFields a with
+  | error e => rw [ht] at hrt; cases hrt
+  | ok r => rw [ht] at hrt; exact ⟨r, rfl, hrt⟩
+
+/-- **`Expressible` is exactly the domain of the round trip**: an action comes back intact from
+its own row if AND ONLY IF it is expressible — no clause of the predicate can be dropped or
+weakened, for any action (the `needs_…` theorems below are instances, replayed on the real code). -/
+theorem expressible_iff_roundtrip (a : Act) : Expressible a ↔ roundTrip a = .ok [a] :=
+  ⟨roundTrip_of_expressible a, expressible_of_roundTrip a⟩
+
+/-- the row of an exported action never makes a node-level action unless it is one -/
+theorem export_not_node_level :
+    ∀ p ∈ exportRowType, p.1 ∉ [tEnterFlow, tCallWebhook, tTransferAirtime] → classifyNode p.2 = .other := by
+  decide
+
+/-- **Second and later actions of a node.**  A row merged into an existing node (`_nodeId`) is
+compiled by `_get_row_action` alone (`existing_node.add_action(row_action)`, no node is built):
+every expressible action that is not node-level (enter_flow / call_webhook / transfer_airtime are
+always alone on their router node) comes back from `_get_row_action` by itself. -/
+theorem action_roundtrip_merged (a : Act) (h : Expressible a)
+    (hn : a.typeStr ∉ [tEnterFlow, tCallWebhook, tTransferAirtime]) :
+    ∃ r, toFields a = .ok r ∧ rowAction r = .ok (some a) := by
+  obtain ⟨r, hr, hof⟩ := action_roundtrip a h
+  refine ⟨r, hr, ?_⟩
+  have hnode : rowNodeAction r = .ok none := by
+    have := export_not_node_level _ (toFields_type a r hr) hn
+    simp only at this
+    simp only [rowNodeAction, this]
+  unfold ofFields at hof
+  rw [hnode] at hof
+  cases hra : rowAction r with
+  | error e => rw [hra] at hof; cases hof
+  | ok x =>
+    rw [hra] at hof
+    cases x with
+    | none => simp at hof
+    | some b =>
+      simp only [Option.toList, List.nil_append, Except.ok.injEq, List.cons.injEq, and_true] at hof
+      rw [hof]
+
+example : Act.typeStr (.setRunResult [] [] []) ∉ [tEnterFlow, tCallWebhook, tTransferAirtime] := by decide
+example : ∃ r, toFields (.addContactUrn "+1".toList "tel".toList) = .ok r := ⟨_, rfl⟩
+
+/-! non-vacuity: one expressible action per kind (each with content in every field) -/
+example : Expressible (.sendMsg "hi".toList ["image:http://x/a.png".toList] ["yes".toList, "no".toList]
+    false [] (some { name := "promo".toList, templateUuid := "t-1".toList, vars := ["v".toList] })) := by decide
+example : Expressible (.sendMsg "hi".toList ["image:a".toList, "geo:1,2".toList] [] false [] none) := by decide
+example : Expressible (.setContactField "Fav Food".toList "fav_food".toList [] "rice".toList) := by decide
+example : Expressible (.setContactProp .language "fra".toList) := by decide
+example : Expressible (.addGroups [{ name := "Grp A".toList, uuid := some "g-1".toList }]) := by decide
+example : Expressible (.removeGroups [{ name := "Grp A".toList }] false) := by decide
+example : Expressible (.setRunResult "score".toList "7".toList "Good".toList) := by decide
+example : Expressible (.enterFlow "child".toList (some "f-1".toList)) := by decide
+example : Expressible (.callWebhook "hook res".toList "http://x".toList "GET".toList "payload".toList
+    [("Accept".toList, "text/plain".toList), ("X-K".toList, "1".toList)]) := by decide
+example : Expressible (.transferAirtime "air".toList
+    [("USD".toList, .int 5), ("KES".toList, .float "20.5".toList), ("RWF".toList, .int (-3))]) := by decide
+example : Expressible (.addContactUrn "+1555".toList "whatsapp".toList) := by decide
+
+/-! ### every clause of `Expressible` is forced: what the codec does outside it
+
+Each witness is replayed on the REAL code by the C04 check (stream `witness`).  `lossy` = comes
+back as a different action without any error; `loud` = the export or the compile step fails. -/
+
+/-- send_msg, `text ≠ ""`: loud (send_msg action requires non-empty text) -/
+theorem needs_text_nonempty :
+    roundTrip (.sendMsg [] [] [] false [] none) = .error .emptyText := by decide
+/-- send_msg, no empty attachment: lossy (normalisation: `_get_attachments` drops it) -/
+theorem needs_no_empty_attachment :
+    roundTrip (.sendMsg "hi".toList [[], "geo:1".toList] [] false [] none) =
+      .ok [.sendMsg "hi".toList ["geo:1".toList] [] false [] none] := by decide
+/-- send_msg, no empty quick reply: lossy (dropped by the compile side only) -/
+theorem needs_no_empty_quick_reply :
+    roundTrip (.sendMsg "hi".toList [] ["a".toList, [], "b".toList] false [] none) =
+      .ok [.sendMsg "hi".toList [] ["a".toList, "b".toList] false [] none] := by decide
+/-- send_msg, `MediaOk`: a lone media attachment comes back trimmed … -/
+theorem needs_media_trimmed :
+    roundTrip (.sendMsg "hi".toList ["image: http://x ".toList] [] false [] none) =
+      .ok [.sendMsg "hi".toList ["image:http://x".toList] [] false [] none] := by decide
+/-- … and vanishes when nothing follows the prefix (two attachments use the generic list and survive) -/
+theorem needs_media_nonempty :
+    roundTrip (.sendMsg "hi".toList ["audio:".toList] [] false [] none) =
+      .ok [.sendMsg "hi".toList [] [] false [] none] ∧
+    roundTrip (.sendMsg "hi".toList ["audio:".toList, "image: x".toList] [] false [] none) =
+      .ok [.sendMsg "hi".toList ["audio:".toList, "image: x".toList] [] false [] none] := by decide
+/-- send_msg, `all_urns`: lossy (no column) -/
+theorem needs_no_all_urns :
+    roundTrip (.sendMsg "hi".toList [] [] true [] none) = .ok [.sendMsg "hi".toList [] [] false [] none] := by
+  decide
+/-- send_msg, `topic`: lossy (no column) -/
+theorem needs_no_topic :
+    roundTrip (.sendMsg "hi".toList [] [] false "event".toList none) =
+      .ok [.sendMsg "hi".toList [] [] false [] none] := by decide
+/-- send_msg, templating needs a name: lossy (`if row.wa_template.name`) -/
+theorem needs_template_name :
+    roundTrip (.sendMsg "hi".toList [] [] false []
+        (some { name := [], templateUuid := "t-1".toList, vars := ["v".toList] })) =
+      .ok [.sendMsg "hi".toList [] [] false [] none] := by decide
+/-- set_contact_field, key = generated key: LOSSY — the action comes back setting another field (F-C04-h) -/
+theorem needs_generated_key :
+    roundTrip (.setContactField "Fav-Food".toList "fav_food".toList [] "rice".toList) =
+      .ok [.setContactField "Fav-Food".toList "fav-food".toList [] "rice".toList] := by decide
+/-- set_contact_field, name must yield a key: loud -/
+theorem needs_field_key :
+    roundTrip (.setContactField "123".toList "123".toList [] "v".toList) = .error .keyNoLetter ∧
+    roundTrip (.setContactField (List.replicate 37 'x') (List.replicate 37 'x') [] "v".toList) =
+      .error .keyTooLong := by decide
+/-- set_contact_field, field reference type: lossy (not exported) -/
+theorem needs_no_field_type :
+    roundTrip (.setContactField "Age".toList "age".toList "number".toList "3".toList) =
+      .ok [.setContactField "Age".toList "age".toList [] "3".toList] := by decide
+set_option maxRecDepth 8000 in
+/-- set_contact_field / set_run_result, value length ≤ 640: loud; 640 itself passes -/
+theorem needs_value_limit :
+    roundTrip (.setContactField "Age".toList "age".toList [] (List.replicate 641 'v')) = .error .valueTooLong ∧
+    roundTrip (.setRunResult "r".toList (List.replicate 641 'v') []) = .error .valueTooLong ∧
+    roundTrip (.setRunResult "r".toList (List.replicate 640 'v') []) =
+      .ok [.setRunResult "r".toList (List.replicate 640 'v') []] := by decide
+/-- set_contact_*, value non-empty: loud -/
+theorem needs_prop_value :
+    roundTrip (.setContactProp .name []) = .error .emptyValue := by decide
+/-- set_contact_channel with a channel reference: loud on export (`mainarg_value` must be text) -/
+theorem needs_no_channel_ref :
+    roundTrip (.setContactChannel "c-1".toList "Channel".toList) = .error .exportValidation := by decide
+/-- group actions, at least one group: loud on export (IndexError), also for "remove from all groups" -/
+theorem needs_a_group :
+    roundTrip (.addGroups []) = .error .exportIndex ∧
+    roundTrip (.removeGroups [] true) = .error .exportIndex := by decide
+/-- group actions, at most one group: LOSSY — every name is written, only the first is read (F-C04-g) -/
+theorem needs_one_group :
+    roundTrip (.addGroups [{ name := "A".toList, uuid := some "g-a".toList },
+                           { name := "B".toList, uuid := some "g-b".toList }]) =
+      .ok [.addGroups [{ name := "A".toList, uuid := some "g-a".toList }]] ∧
+    (toFields (.addGroups [{ name := "A".toList, uuid := some "g-a".toList },
+                           { name := "B".toList, uuid := some "g-b".toList }])).toOption.map (·.mainargGroups) =
+      some ["A".toList, "B".toList] := by decide
+/-- group actions, uuid absent or non-empty: lossy (`""` reads as none) -/
+theorem needs_group_uuid :
+    roundTrip (.addGroups [{ name := "A".toList, uuid := some [] }]) =
+      .ok [.addGroups [{ name := "A".toList, uuid := none }]] := by decide
+/-- group actions, no query / status / system / count on the reference: lossy -/
+theorem needs_no_group_attrs :
+    roundTrip (.removeGroups [{ name := "A".toList, attrs := true }] false) =
+      .ok [.removeGroups [{ name := "A".toList }] false] := by decide
+/-- remove_contact_groups, `all_groups`: lossy (no column) -/
+theorem needs_no_all_groups :
+    roundTrip (.removeGroups [{ name := "A".toList }] true) =
+      .ok [.removeGroups [{ name := "A".toList }] false] := by decide
+/-- enter_flow, flow name: loud; uuid absent or non-empty: lossy -/
+theorem needs_flow_name_and_uuid :
+    roundTrip (.enterFlow [] (some "f-1".toList)) = .error .noFlowName ∧
+    roundTrip (.enterFlow "child".toList (some [])) = .ok [.enterFlow "child".toList none] := by decide
+/-- call_webhook: url and result name (loud), method of the list (loud; empty reads as POST),
+result name must yield a key (loud) -/
+theorem needs_webhook_fields :
+    roundTrip (.callWebhook "wh".toList [] "GET".toList [] []) = .error .noUrlOrName ∧
+    roundTrip (.callWebhook [] "http://x".toList "GET".toList [] []) = .error .noUrlOrName ∧
+    roundTrip (.callWebhook "wh".toList "http://x".toList "PATCH".toList [] []) = .error .badMethod ∧
+    roundTrip (.callWebhook "wh".toList "http://x".toList [] [] []) =
+      .ok [.callWebhook "wh".toList "http://x".toList "POST".toList [] []] ∧
+    roundTrip (.callWebhook "123".toList "http://x".toList "GET".toList [] []) = .error .keyNoLetter := by
+  decide
+/-- dictionaries have distinct keys (holds for every JSON object; the model's pair lists could repeat one) -/
+theorem needs_distinct_keys :
+    roundTrip (.callWebhook "wh".toList "http://x".toList "GET".toList []
+        [("A".toList, "1".toList), ("B".toList, "2".toList), ("A".toList, "3".toList)]) =
+      .ok [.callWebhook "wh".toList "http://x".toList "GET".toList []
+        [("A".toList, "3".toList), ("B".toList, "2".toList)]] := by decide
+/-- transfer_airtime: amounts and result name (loud), key (loud) -/
+theorem needs_airtime_fields :
+    roundTrip (.transferAirtime "air".toList []) = .error .noAmounts ∧
+    roundTrip (.transferAirtime [] [("USD".toList, .int 5)]) = .error .noAmounts ∧
+    roundTrip (.transferAirtime "1 2".toList [("USD".toList, .int 5)]) = .error .keyNoLetter := by decide
+/-- a float amount is carried as its `repr` text: a float literal that is not an int literal
+(true of every `repr(float)`; the model's texts are arbitrary) -/
+theorem needs_float_text :
+    roundTrip (.transferAirtime "air".toList [("USD".toList, .float "5".toList)]) =
+      .ok [.transferAirtime "air".toList [("USD".toList, .int 5)]] ∧
+    roundTrip (.transferAirtime "air".toList [("USD".toList, .float "five".toList)]) = .error .notNumeric := by
+  decide
+/-- add_contact_urn, scheme non-empty: lossy (`""` and `tel` share the empty cell) -/
+theorem needs_scheme :
+    roundTrip (.addContactUrn "+1".toList []) = .ok [.addContactUrn "+1".toList "tel".toList] ∧
+    roundTrip (.addContactUrn "+1".toList "tel".toList) = .ok [.addContactUrn "+1".toList "tel".toList] := by
+  decide
+/-- the pass-through action types have no sheet form: loud on export -/
+theorem needs_supported_type :
+    ∀ t ∈ passThroughTypes, roundTrip (.unsupported t) = .error .exportNotImplemented := by decide
+
+/-- compile-side quirk kept by the model: `row.type.replace("set_contact_", "")` removes every
+occurrence, so these row types are accepted as set_contact_name rows -/
+theorem replace_removes_every_occurrence :
+    ofFields { type := "set_contact_set_contact_name".toList, mainargValue := "Bob".toList } =
+      .ok [.setContactProp .name "Bob".toList] ∧
+    ofFields { type := "set_contact_nameset_contact_".toList, mainargValue := "Bob".toList } =
+      .ok [.setContactProp .name "Bob".toList] ∧
+    ofFields { type := "set_contact_nick".toList, mainargValue := "Bob".toList } = .error .unknownProp := by
+  decide
+
+end ActionCodec
 
 end Rpft.Props.C04
